@@ -100,7 +100,7 @@ PAR = {
 
 TIERS = {
     "quick": dict(njobs=150, nops=25),
-    "thorough": dict(njobs=4000, nops=40),
+    "thorough": dict(njobs=1500, nops=40),
 }
 # families that need long histories
 NOPS_FACTOR = {"churn": 3, "reclaim": 2}
@@ -160,7 +160,7 @@ def run_mc_part(pid, cfg, tier, seed, binary, wd, results):
         return None
     info = {"states": 0, "transitions": 0, "mc_models": [], "replayed_histories": 0, "replay_fetches_compared": 0,
             "drift": 0, "drift_samples": [], "exhaustive": True}
-    limit = 5000 if tier == "quick" else 60000
+    limit = 5000 if tier == "quick" else 30000
     for fam in fams:
         mc = mccheck.run_mc(fam, tier, wd)
         jobs = mccheck.replay_jobs(mc, limit, seed)
@@ -325,7 +325,7 @@ def finish(pid, tier, seed, results, cfg, known, wd, t0, mc):
     return 0
 
 
-PAR_TIERS = {"quick": dict(njobs=60), "thorough": dict(njobs=2000)}
+PAR_TIERS = {"quick": dict(njobs=60), "thorough": dict(njobs=600)}
 
 
 def run_par_families(binary, fams, tier, seed, wd, monitors=("par", "sync")):
